@@ -63,6 +63,8 @@ EXTRA_TREES: List[Any] = [
     Ref(1, 0), Ref(12, 7),
     [[[Ref(1, 0)]]], {"K": {"L": {"M": Ref(12, 0)}}}, [{"K": [Ref(3, 5), Ref(1, 0)]}], {"K": [{"L": Ref(3, 5), "M": 7}, Ref(2, 0)]},
     [[[Ref(1, 0), Ref(2, 0)], 5], Ref(65535, 65535)],
+    # object number 0 (the head of the free list) is a syntactically valid reference like any other
+    [Ref(0, 65535), 7], {"K": Ref(0, 65535), "L": 7}, Ref(0, 0),
 ]
 # all 256 byte values spread over eight 32-byte literal strings (enumerated with a smaller deviation bound)
 LONG: List[Any] = [bytes(range(32 * k, 32 * k + 32)) for k in range(8)]
